@@ -184,8 +184,9 @@ def handler_sibling_agreement(ctx: Ctx) -> None:
         default = d.specific(None)
         raises = [n for n in default if n.kind == "stmt" and isinstance(n.ast, ast.Raise) and n.ast.exc is not None and "XmlHandlerError" in unparse(n.ast.exc)]
         ctx.ob(f"{k}: every event kind START / END / START_NS has a branch and unknown events raise XmlHandlerError", kinds == {"START", "END", "START_NS"} and bool(raises), at=fi, construct=f"{k} dispatch", msg=f"branches {sorted(kinds)}")
-        rv = [v for v in (x for r in g.returns() for x in alternatives(fi.node, r.ast.value)) if not (isinstance(v, ast.Constant) and v.value is None)]
-        ctx.ob(f"{k}: returns the last bound object or None", bool(rv) and all(unparse(v) == "self.objects[-1][1]" for v in rv), at=fi, construct=f"{k} result", msg="result expression differs")
+        # every non-None value that can be returned is self.objects[-1][1] (directly, through a temporary, or unpacked from self.objects[-1])
+        rv = [v for r in g.returns() if r.ast.value is not None for x in alternatives(fi.node, r.ast.value) for v in (leaves_at(fi, r, x) or [x]) if not (isinstance(v, ast.Constant) and v.value is None)]
+        ctx.ob(f"{k}: returns the last bound object or None", bool(rv) and all(unparse(v) == "self.objects[-1][1]" for v in rv), at=fi, construct=f"{k} result", msg=f"result expression differs: {sorted({unparse(v) for v in rv})[:3]}")
         branch = {kind: d.specific(f"EventType.{kind}") for kind in ("START", "END", "START_NS")}
 
         def calls_of(nodes, name: str) -> list[ast.Call]:
@@ -279,6 +280,15 @@ def handler_sibling_agreement(ctx: Ctx) -> None:
                       for n in fresh for v in defs[n])
     own_in = any((isinstance(m, ast.Call) and m.func.attr == "update" and m.args and root_name(m.args[0]) == "ns_map") for m, _ in muts) or any(
         isinstance(n, ast.For) and "ns_map" in unparse(n.iter) and any(isinstance(x, ast.Subscript) and isinstance(x.ctx, ast.Store) and root_name(x) in fresh for x in ast.walk(n)) for n in walk_no_nested(mp.node))
+    # display form: {**<parent map or {}>, **ns_map} - the parent's entries first, the element's own declarations override them
+    for n_ in g.stmts():
+        if n_.ast is None or n_.kind == "test":
+            continue
+        for dsp in [x for x in ast.walk(n_.ast) if isinstance(x, ast.Dict) and len(x.keys) >= 2 and all(k is None for k in x.keys)]:
+            first, last = dsp.values[0], dsp.values[-1]
+            first_leaves = leaves_at(mp, n_, first)
+            if any(_is_parent_map(x) for x in first_leaves) and all(_is_parent_map(x) or (isinstance(x, ast.Dict) and not x.keys) for x in first_leaves) and root_name(last) == "ns_map":
+                from_parent = own_in = True
     rv = [v for r in g.returns() for v in alternatives(mp.node, r.ast.value)]
     ret_ok = bool(rv) and all((isinstance(v, ast.Name) and (v.id in fresh or v.id in parent_names)) or _is_fresh(v) or unparse(expand(mp.node, v)) == "self.queue[-1].ns_map" for v in rv)
     ctx.ob("merge_parent_namespaces: result = copy of the parent node's map overridden by the element's own declarations", from_parent and own_in and ret_ok, at=mp, construct="merge semantics",
@@ -732,3 +742,20 @@ def stand_in_nodes_track_the_open_element(ctx: Ctx) -> None:
 
 
 share("C08", "C08.R11", stand_in_nodes_track_the_open_element)  # where the native handler and the lxml handler (full nsmap per element) could part
+
+
+@rule("C08.R12")
+def native_xinclude_loader_forwards_the_callback_arguments(ctx: Ctx) -> None:
+    """The native handler's XInclude loader hands everything ElementInclude passes to it - href (resolved against the base), parse and
+    encoding - on to xinclude.default_loader: libxml2 honours `encoding` of a parse="text" include, so must the pure-Python route."""
+    fi = ctx.repo.func(f"{PAR}.handlers.native:xinclude_loader")
+    calls = [c for c in calls_in(fi.node) if call_name_of(c) == "default_loader"]
+    if not calls:
+        ctx.abstain("delegation of xinclude_loader", at=fi, why="no call to xinclude.default_loader in the function")
+        return
+    params = [a.arg for a in fi.params if a.arg in ("href", "parse", "encoding")]
+    for c in calls:
+        passed = {x.id for a in [*c.args, *[k.value for k in c.keywords]] for leaf in (leaves_at(fi, c, a) or [a]) for x in ast.walk(leaf) if isinstance(x, ast.Name)}
+        missing = [p for p in params if p not in passed]
+        ctx.ob("xinclude_loader forwards href, parse and encoding to xinclude.default_loader", not missing and len(params) == 3, at=fi, node=c, construct="xinclude loader arguments",
+               msg=f"{missing or 'a callback parameter was removed'} not forwarded: a parse=\"text\" include with an encoding is decoded as UTF-8 by the native handler only (UnicodeDecodeError or mojibake)")
